@@ -309,7 +309,7 @@ func runKeepAlive(variant string) string {
 
 // ---- (3) CONNECT and SNI muxers ----
 
-func runMuxer(kind string, table []triple, host, user string) string {
+func runMuxer(kind string, table []triple, host, user string, closeIdx int) string {
 	l, err := net.Listen("tcp", "127.0.0.1:0")
 	if err != nil {
 		return ""
@@ -331,13 +331,21 @@ func runMuxer(kind string, table []triple, host, user string) string {
 	}
 	ref := map[triple]bool{}
 	got := make(chan string, 8)
+	var lns []*vhost.Listener
+	defer func() {
+		for i, ln := range lns {
+			if i != closeIdx {
+				ln.Close()
+			}
+		}
+	}()
 	for _, t := range table {
 		t := t
 		ln, err := mux.Listen(ctxBG, &vhost.RouteConfig{Domain: t.Host, RouteByHTTPUser: t.User})
 		if err != nil {
 			return "listen " + t.String() + ": " + err.Error()
 		}
-		defer ln.Close()
+		lns = append(lns, ln)
 		ref[triple{strings.ToLower(t.Host), "", t.User}] = true
 		go func() {
 			for {
@@ -349,6 +357,12 @@ func runMuxer(kind string, table []triple, host, user string) string {
 				c.Close()
 			}
 		}()
+	}
+	if closeIdx >= 0 && closeIdx < len(lns) {
+		// one route is closed again: exactly that route disappears
+		lns[closeIdx].Close()
+		t := table[closeIdx]
+		delete(ref, triple{strings.ToLower(t.Host), "", t.User})
 	}
 	c, err := net.Dial("tcp", l.Addr().String())
 	if err != nil {
@@ -531,11 +545,12 @@ func main() {
 		Table []triple `json:"table"`
 		Host  string   `json:"host"`
 		User  string   `json:"user"`
+		Close int      `json:"closed_route"` // index of a route closed again before the request, -1 = none
 	}
 	drv.E2Replayers["mux"] = func(raw json.RawMessage) string {
 		var mc mcase
 		json.Unmarshal(raw, &mc)
-		return runMuxer(mc.Kind, mc.Table, mc.Host, mc.User)
+		return runMuxer(mc.Kind, mc.Table, mc.Host, mc.User, mc.Close)
 	}
 	var mcases []mcase
 	for _, kind := range []string{"connect", "sni"} {
@@ -545,7 +560,10 @@ func main() {
 					if kind == "sni" && u != "" {
 						continue
 					}
-					mcases = append(mcases, mcase{kind, tb, h, u})
+					mcases = append(mcases, mcase{kind, tb, h, u, -1})
+					if len(tb) == 2 {
+						mcases = append(mcases, mcase{kind, tb, h, u, 0}, mcase{kind, tb, h, u, 1})
+					}
 				}
 			}
 		}
@@ -555,12 +573,12 @@ func main() {
 	sem := make(chan struct{}, 32)
 	for _, mc := range mcases {
 		mc := mc
-		c.Count(fmt.Sprintf("mux:%s:%v:%s:%s", mc.Kind, mc.Table, mc.Host, mc.User))
+		c.Count(fmt.Sprintf("mux:%s:%v:%s:%s:%d", mc.Kind, mc.Table, mc.Host, mc.User, mc.Close))
 		wg.Add(1)
 		sem <- struct{}{}
 		go func() {
 			defer func() { <-sem; wg.Done() }()
-			if e := runMuxer(mc.Kind, mc.Table, mc.Host, mc.User); e != "" {
+			if e := runMuxer(mc.Kind, mc.Table, mc.Host, mc.User, mc.Close); e != "" {
 				mu.Lock()
 				c.ViolateConfirmed("mux", "mux:"+e, fmt.Sprintf("table %v: %s", mc.Table, e), mc, 2)
 				mu.Unlock()
